@@ -193,7 +193,8 @@ def cat(parts):
         for n, v in parts:
             r = (r << n) | v
         return total, r
-    return total, z3.Concat(*[bv(v, n) for n, v in parts])
+    # structural simplification merges adjacent extracts of one vector (byte reversal round trips) back into the vector
+    return total, z3.simplify(z3.Concat(*[bv(v, n) for n, v in parts]))
 
 
 def splice(v, n: int, start, D: int, val, m: int):
